@@ -14,8 +14,12 @@ static Case gen_case ()
 {	Case c ;
 	int maj = *rc::gen::elementOf (std::vector<int> (containers, containers + 5)) ;
 	int sub = *rc::gen::element (SF_FORMAT_PCM_16, SF_FORMAT_PCM_24, SF_FORMAT_FLOAT) ;
-	c.set ("fmt", format_str (maj | sub)) ; c.seti ("format", maj | sub) ;
-	c.seti ("ch", *rc::gen::element (1, 2, 3)) ;
+	int chn = *rc::gen::element (1, 2, 3) ;
+	// byte order: the container's own in half of the cases, otherwise an explicit one where sf_format_check accepts it (RIFX, AIFF-C 'sowt', little-endian CAF)
+	int en = *rc::gen::element (0, 0, (int) SF_ENDIAN_LITTLE, (int) SF_ENDIAN_BIG) ;
+	if (en) { SF_INFO ci ; memset (&ci, 0, sizeof (ci)) ; ci.format = maj | sub | en ; ci.channels = chn ; ci.samplerate = 44100 ; if (!sf_format_check (&ci)) en = 0 ; }
+	c.set ("fmt", format_str (maj | sub | en)) ; c.seti ("format", maj | sub | en) ;
+	c.seti ("ch", chn) ;
 	c.seti ("count", *rc::gen::weightedOneOf<int> ({ { 3, rangeOf<int> (0, 8) }, { 3, rc::gen::element (19, 20, 21, 22, 30, 31, 32, 33, 46, 47, 48, 49) }, { 2, rangeOf<int> (9, 80) }, { 1, rangeOf<int> (81, 200) } })) ;
 	c.seti ("seed", (long long) *seedGen ()) ;
 	c.seti ("idmode", *rangeOf<int> (0, 3)) ;	// 0 distinct 4-char ids, 1 few ids with duplicates, 2 short ids (1-3 chars), 3 mixed
